@@ -192,6 +192,19 @@ def e_varcov(B, cfg):
 def e_specialgamma(B, cfg):
     from nifty.cl.operators.energy_operators import _SpecialGammaEnergy
     dom = ift.DomainTuple.make(U(N))
+    if cfg.get("cplx"):
+        # complex residual (two real degrees of freedom per entry): E = 0.5 sum |r|^2 x - sum log x, Fisher information 1 / x^2
+        r = B.values("res", (N,), cplx=True)
+        with shims_cl.complex_mode(True):          # the class decides real / complex from the residual's dtype in its constructor
+            en = _SpecialGammaEnergy(field_of(dom, r))
+
+        def refc(x):
+            for u in x:
+                B.assume(u.v > 0)
+            r2 = [(sc._lift(a).conjugate() * a).real if B.mode == "sym" else abs(complex(a)) ** 2 for a in list(np.asarray(r, dtype=object).reshape(-1))]
+            val = 0.5 * _sum([a * u for a, u in zip(r2, x)]) - _sum([_log(B, u) for u in x])
+            return val, (lambda v: [w / (u.v * u.v) for w, u in zip(v, x)])
+        return en, dom, refc, {}
     r = B.reals("res", (N,))
     en = _SpecialGammaEnergy(field_of(dom, r))
 
@@ -211,7 +224,7 @@ ENERGIES = {
     "invgamma": (e_invgamma, [{"beta": [1.5, 0.25], "alpha": 3.0}, {"beta": [2.0, 1.0], "alpha": "field"}]),
     "categorical": (e_categorical, [{"d": [1, 0, 0, 1]}, {"d": [0, 0, 1, 1]}]),
     "varcov": (e_varcov, [{}]),
-    "specialgamma": (e_specialgamma, [{}]),
+    "specialgamma": (e_specialgamma, [{}, {"cplx": True}]),
 }
 
 # wrappers: how the bare likelihood is embedded
